@@ -257,8 +257,9 @@ func addGlobalBufferManagerRefCount(path string, c int) {
 }
 
 func createBufferManager(listSizePercent []*SizePercentPair, path string, mem []byte, offset uint32) (*bufferManager, error) {
-	if len(mem) <= int(offset) {
-		return nil, fmt.Errorf("mem's size is at least:%d but:%d", offset+1, len(mem))
+	// the manager header (list count 2 byte | reserve 2 byte | used length 4 byte) is written below
+	if len(mem) < int(offset)+bufferManagerHeaderSize {
+		return nil, fmt.Errorf("mem's size is at least:%d but:%d", offset+bufferManagerHeaderSize, len(mem))
 	}
 
 	//number of list 2 byte | 2 byte reserve | used_length 4 byte
@@ -297,8 +298,8 @@ func createBufferManager(listSizePercent []*SizePercentPair, path string, mem []
 }
 
 func mappingBufferManager(path string, mem []byte, bufferRegionStartOffset uint32) (*bufferManager, error) {
-	if len(mem) <= int(bufferRegionStartOffset+bmCapOffset) || len(mem) <= int(bufferRegionStartOffset) {
-		return nil, fmt.Errorf("mem's size is at least:%d but:%d bufferRegionStartOffset:%d", bufferRegionStartOffset+bmCapOffset+1, len(mem), bufferRegionStartOffset)
+	if len(mem) < int(bufferRegionStartOffset)+bufferManagerHeaderSize {
+		return nil, fmt.Errorf("mem's size is at least:%d but:%d bufferRegionStartOffset:%d", bufferRegionStartOffset+bufferManagerHeaderSize, len(mem), bufferRegionStartOffset)
 	}
 
 	listNum := int(*(*uint16)(unsafe.Pointer(&mem[bufferRegionStartOffset])))
